@@ -9,6 +9,7 @@ import VlsModel.Gen.FnSimpleSetup
 import VlsModel.Gen.FnOnchainPass
 import VlsModel.Gen.FnPolicyMod
 import VlsModel.Gen.FnOnchainFactory
+import VlsModel.Gen.FnDefaultPolicy
 import VlsModel.Gen.Chain
 import VlsModel.Lemmas.FnGen
 /-
@@ -1486,6 +1487,22 @@ theorem C05_fn_onchain_gate_filter_is_inner {N PK CI V : Type}
     (mk : Gen.FnOnchainFactory.SimpleValidatorFactory → N → PK → Option CI → V)
     (sp : Gen.FnOnchainFactory.SimplePolicy) (net : N) (id : PK) (ch : Option CI) :
     (Gen.FnOnchainFactory.OnchainValidatorFactory.make_validator mk ⟨⟨some sp⟩⟩ net id ch).policy.filter = sp.filter := rfl
+
+/-- **`make_default_simple_policy` (translated, both branches) carries the numbers `x_policy.py` extracts** as
+    `Gen.Policy.defaultMainnet` / `defaultTestnet` — the policies for which `C05_default_filter_strict`,
+    `C05_default_nonpermissive` discharge the filter hypothesis of `C05_main`: mainnet gets the first literal, **every**
+    other network (testnet, signet, regtest) the second; no rule in the filter, no dev flags.  Two independent
+    extractors (text pins and the function-body translator) have to agree here. -/
+theorem C05_fn_make_default_simple_policy {V : Type} (unl fee : V) (net : Gen.FnDefaultPolicy.Network) :
+    let sp := Gen.FnDefaultPolicy.make_default_simple_policy unl fee net
+    let raw := if net = .Bitcoin then Gen.Policy.defaultMainnet else Gen.Policy.defaultTestnet
+    sp.min_delay = raw.minDelay ∧ sp.max_delay = raw.maxDelay ∧ sp.max_channel_size_sat = raw.maxChannelSize
+      ∧ sp.epsilon_sat = raw.epsilon ∧ sp.max_htlcs = raw.maxHtlcs ∧ sp.max_htlc_value_sat = raw.maxHtlcValue
+      ∧ sp.use_chain_state = raw.useChainState ∧ sp.min_feerate_per_kw = raw.minFeerate
+      ∧ sp.max_feerate_per_kw = raw.maxFeerate ∧ sp.max_routing_fee_msat = raw.maxRoutingFeeMsat
+      ∧ sp.enforce_balance = raw.enforceBalance ∧ sp.filter.rules = [] ∧ raw.filter = [] ∧ sp.dev_flags = none
+      ∧ sp.max_channels = Gen.Chain.maxChannelsDefault := by
+  cases net <;> exact ⟨rfl, rfl, rfl, rfl, rfl, rfl, rfl, rfl, rfl, rfl, rfl, rfl, rfl, rfl, rfl⟩
 
 /-- trait default `Policy::max_channels` = the constant `x_chain.py` extracts -/
 theorem C05_fn_policy_max_channels {S : Type} (s : S) :
